@@ -1275,7 +1275,15 @@ impl GraphDatabase {
 
             match validate_json_for_entity(entity, &node._json) {
                 Ok(_) => {
+                    //synchronised rows are indexed like the rows written locally
+                    let node_fts_str = if entity.enable_full_text {
+                        Self::full_text_of(&node._json)
+                    } else {
+                        None
+                    };
                     node_to_insert.entity_name = Some(name);
+                    node_to_insert.index = entity.enable_full_text;
+                    node_to_insert.node_fts_str = node_fts_str;
                     valid_nodes.push(node_to_insert)
                 }
                 Err(_e) => {
@@ -1288,6 +1296,15 @@ impl GraphDatabase {
 
         let msg = AuthorisationMessage::AddNodes(valid_nodes, invalid_nodes, reply);
         let _ = self.auth_service.send(msg).await;
+    }
+
+    //text indexed for a row, None when the row has no valid JSON content
+    fn full_text_of(json: &Option<String>) -> Option<String> {
+        let json = json.as_ref()?;
+        let value: serde_json::Value = serde_json::from_str(json).ok()?;
+        let mut text = String::new();
+        super::node::extract_json(&value, &mut text).ok()?;
+        Some(text)
     }
 
     pub async fn add_edges(&self, room_id: Uid, edges: Vec<Edge>, reply: Sender<Result<Vec<Uid>>>) {
